@@ -156,6 +156,7 @@ func famCreation(s *scenario) {
 		{"rfc7638-thumbprint-as-id", kn.frag},
 		{"thumbprint-with-suffix", kn.thumb + "x"},
 		{"thumbprint-lowercased", strings.ToLower(kn.thumb)},
+		{"thumbprint-percent-escaped", fmt.Sprintf("%%%02X", kn.thumb[0]) + kn.thumb[1:]}, // another DID string that merely unescapes to the thumbprint
 	} {
 		if v.id == kn.thumb {
 			continue
@@ -185,6 +186,23 @@ func famRecreate(s *scenario) {
 	back := docSpec{id: b.id, vms: []vmSpec{{b.k, relCapInv}}}
 	prevs := [][]dag.Transaction{{b.latest()}, {b.txs[0]}, {s.e.root}}[s.rnd.Intn(3)]
 	s.submit(&pair{kind: "create/existing-did-by-removed-creation-key", target: b.id, payload: back.json(), signer: b.k, prevs: prevs})
+}
+
+// famRepublish: a party that controls nothing of the DID republishes an OLD version of its document byte for byte (so the payload
+// hash equals that of a version the store already holds), with prevs naming the old version first / alone / last.
+func famRepublish(s *scenario) {
+	a := s.mkDID("a", nil)
+	b := s.mkDID("b", nil)
+	k2 := s.key("k2")
+	old := b.spec
+	_, ok := s.apply(b, "update/own-key", b.spec.without(b.k).with(k2, relCapInv|relAssert), b.k, b, []dag.Transaction{b.latest()})
+	s.need(ok, "rotation")
+	first, latest := b.txs[0], b.latest()
+	own := a.latest() // a transaction of the outsider's own DID, so that the DAG can resolve its signing key at all
+	for _, prevs := range [][]dag.Transaction{{first, latest, own}, {first, own}, {first, own, latest}, {latest, first, own}, {latest, own}, {own, first, latest},
+		s.withRoot([]dag.Transaction{first, latest, own}), {first, latest}} {
+		s.submit(&pair{kind: "update/non-controller-did-key/republished-old-version", target: b.id, payload: old.json(), signer: a.k, kidOwner: &a.id, prevs: prevs})
+	}
 }
 
 // ---- updates by keys of the DID itself ---------------------------------------------------------------------------------------
@@ -888,6 +906,7 @@ func jobs(thorough bool, rnd *rand.Rand) []job {
 	if !thorough {
 		add("creation", famCreation)
 		add("recreate", famRecreate)
+		add("republish", famRepublish)
 		add("own-key", famOwnKey)
 		add("demoted-key/2-versions", famRemovedKey(true, 2, 2+rnd.Intn(2)))
 		add("removed-key/3-versions", famRemovedKey(false, 3, rnd.Intn(15)))
@@ -917,6 +936,7 @@ func jobs(thorough bool, rnd *rand.Rand) []job {
 		add("creation", famCreation)
 		add("own-key", famOwnKey)
 		add("recreate", famRecreate)
+		add("republish", famRepublish)
 	}
 	for rep := 0; rep < 2; rep++ {
 		for idx := 0; idx < 4; idx++ {
